@@ -158,7 +158,11 @@ def run_variants(ctx, fam, spec, inputs, kw):
         for j in range(4 if fam["family"] == "waitdag" else 1):
             sh = gen.shuffled(ctx.rng, sync_spec)
             outs.append((f"sync-shuffled{j}", core.execute(sh, inputs, "sync", **kw)))
-            sh2 = gen.shuffled(ctx.rng, async_spec)
+            # the async twin uses the SAME permutation, so that a failing run's partial values
+            # are compared between the two runners on one and the same graph
+            pos = {n["name"]: i for i, n in enumerate(sh["nodes"])}
+            sh2 = copy.deepcopy(async_spec)
+            sh2["nodes"].sort(key=lambda n: pos[n["name"]])
             s = rt.Sched(default="rand", rng=ctx.rng)
             outs.append((f"async-shuffled{j}", core.execute(sh2, inputs, "async", sched=s, **kw)))
     return outs
@@ -169,6 +173,7 @@ def compare(ctx, fam, spec, inputs, outs, failing_fid=None):
         failing_fid = [failing_fid]
     case = {"family": fam["family"], "spec": spec, "inputs": inputs, "fail": failing_fid}
     label0, piv = outs[0]
+    by_label = dict(outs)
     pm = multiset(piv.rec)
     for label, o in outs:
         ctx.obs["enter_events"] += o.rec.count("enter")
@@ -210,8 +215,10 @@ def compare(ctx, fam, spec, inputs, outs, failing_fid=None):
             if o.status != piv.status:
                 ctx.violation("C02:status", f"{label}: status {o.status} vs sync {piv.status}", {**case, "variant": label})
                 continue
-            if piv.values is not None and o.values is not None and not is_sync:
-                for k, v in piv.values.items():
+            # partial values: sync vs async runner on the same graph (same node list order)
+            pv = by_label.get(label.replace("async-", "sync-"), piv) if "shuffled" in label else piv
+            if pv.values is not None and o.values is not None and not is_sync and pv.status == o.status:
+                for k, v in pv.values.items():
                     if k not in o.values or o.values[k] != v:
                         if k in o.values and rerun_overwrite(k, v, o):
                             key = "C02:partial:failing-step-sibling-overwrites"
